@@ -126,6 +126,14 @@ func c18(e *Env) {
 	c.Explanation = "Each exported function of v3/report/names is translated into a finite-map expression over the name tables (syntax-directed; anything outside the look-up fragment is UNDECIDED) and tabulated over every declared constant of its metric type plus the zero and an out-of-range representative, times {language.English, language.Japanese, any other tag, and every further language tag that occurs as a key of a names table}. Non-emptiness, per-metric distinctness, the Unknown name for undefined values, equality of Modified and base value names on shared codes, and equality with English for every other tag are checked cell by cell. Table well-formedness (no duplicate language keys, both languages present) is checked on the table model."
 	c.Trusted = []string{"go/types", "summary translation and its Go map semantics (facts/summary.go)", "golang.org/x/text/language: English and Japanese are distinct comparable values; any other tag is unequal to both"}
 	c.Assumptions = []string{"regional variants of English/Japanese are left unspecified by the property", "name tables are not modified after initialisation (rule table-immutability, shared with C15/C16)"}
+	e.nameCells()
+}
+
+// nameCells tabulates every title and value-name function of v3/report/names over its finite domain and checks
+// the cells (rules title, value-name, modified-equals-base, name-functions); shared by C18 and by C17, whose
+// report fields are these functions' results for the requested language.
+func (e *Env) nameCells() {
+	c := e.C
 	c.Floor("title", 29*3)
 	c.Floor("value-name", 23*3*3)
 	c.Floor("modified-equals-base", 7*2*2)
